@@ -1,7 +1,8 @@
 (* Channel "hball": HyperBall (C19).  Cases of one group (same graph, weights, seed, register
    count, estimator, iteration bound) must agree; the first successful case of a group is its
    reference.  When the initial registers are given, the extracted model replays the whole
-   run (modes, modified counters, registers), and the estimates are recomputed from the
+   run (modes, modified counters, registers) under the rules of the code as it is now
+   (local = pre_local && systolic), and the estimates are recomputed from the
    model's registers with the HyperLogLog formula (hand-written floating-point glue). *)
 open Model
 open Model.HBallM
@@ -179,27 +180,38 @@ let run (args : (string * string) list) : string =
          | [], [] -> None | _ -> Some (-1, 0.0, 0.0) in
        add "est_corr" (match first_bad 0 est mest with None -> "ok"
                        | Some (i, x, y) -> Printf.sprintf "FAIL(node%d:impl-%.17g-model-%.17g)" i x y);
-       (* the neighbourhood function as [iterate] accumulates it *)
-       let last = ref (float_of_int n) and outs = ref [float_of_int n] in
-       let prev = ref (Array.of_list (List.map est_of regs0)) in
-       List.iter (fun s ->
-           let (((sys, loc), _), _) = cs_flags s in
-           let cur = Array.of_list (List.map est_of (cs_curr s)) in
-           let md = Array.of_list (cs_mod s) in
-           let v =
-             if sys then begin
-               let d = ref 0.0 in
-               Array.iteri (fun i b -> if b then d := !d +. (cur.(i) -. !prev.(i))) md;
-               !last +. !d
-             end else if loc then
-               List.fold_left (fun a i -> a +. cur.(int_of_nat i)) 0.0 (cs_check s)
-             else Array.fold_left (+.) 0.0 cur in
-           last := v;
-           let lo = List.hd !outs in
-           outs := (if v < lo then lo else v) :: !outs;
-           prev := cur) states;
-       let mnf = List.rev !outs in
+       (* the neighbourhood function as [iterate] accumulates it: a standard iteration sums
+          the estimates of all nodes, a systolic one (local or not) compensates the last
+          value with the differences of the modified counters.  [old_rule]: the rule the
+          code had before its repair (a local, non-systolic iteration summed the check list
+          only); used only to name a regression. *)
+       let nf_of (old_rule : bool) (states : n list cstate list) : float list =
+         let last = ref (float_of_int n) and outs = ref [float_of_int n] in
+         let prev = ref (Array.of_list (List.map est_of regs0)) in
+         List.iter (fun s ->
+             let (((sys, loc), _), _) = cs_flags s in
+             let cur = Array.of_list (List.map est_of (cs_curr s)) in
+             let md = Array.of_list (cs_mod s) in
+             let v =
+               if sys then begin
+                 let d = ref 0.0 in
+                 Array.iteri (fun i b -> if b then d := !d +. (cur.(i) -. !prev.(i))) md;
+                 !last +. !d
+               end else if old_rule && loc then
+                 List.fold_left (fun a i -> a +. cur.(int_of_nat i)) 0.0 (cs_check s)
+               else Array.fold_left (+.) 0.0 cur in
+             last := v;
+             let lo = List.hd !outs in
+             outs := (if v < lo then lo else v) :: !outs;
+             prev := cur) states;
+         List.rev !outs in
+       let mnf = nf_of false states in
        add "nf_corr" (match first_bad 0 nf mnf with None -> "ok"
-                      | Some (i, x, y) -> Printf.sprintf "FAIL(round%d:impl-%.17g-model-%.17g)" i x y))
+                      | Some (i, x, y) ->
+                        let old_states = hb_run_regs_prefix ext tr (graph_of g)
+                            (if tr then graph_of (transpose n g) else []) (nat_of_int ub) regs0 in
+                        let regress = first_bad 0 nf (nf_of true old_states) = None in
+                        Printf.sprintf "FAIL(round%d:impl-%.17g-model-%.17g%s)" i x y
+                          (if regress then ";equals-the-model-of-the-pre-repair-local-flag-rule" else "")))
   end;
   Buffer.contents res
